@@ -9,7 +9,8 @@ import PyxModel.Prebuild.Gen
   (`resolve`), `bridge NS::f(...)` is a bridge invocation.
 
   Fuel-indexed (structural recursion on the fuel); `parseGen` supplies enough fuel for any token list the
-  generator can produce (`Proofs/PrebuildRoundtrip.lean`: `fuel_enough`).
+  generator can produce (`Proofs/PrebuildFuel.lean`: `fuel_enough`).
+  It is an inverse of `genTokens` on the output language, NOT a model of `oal.parse` (it rejects `x = a + b`).
 -/
 namespace Pyx.Prebuild
 
